@@ -285,7 +285,7 @@ class World:
 
     def _subst(self, spec: Any) -> Any:
         if isinstance(spec, str):
-            return spec.replace("@SCRATCH@", self.scratch)
+            return spec.replace("@SCRATCH@", ".")  # execute() made the scratch directory the working directory
         if isinstance(spec, list):
             return [self._subst(x) for x in spec]
         if isinstance(spec, dict):
@@ -377,9 +377,15 @@ def execute(scenario: dict) -> dict:
     from sigsim import world as _w
 
     _SCRATCH = _w.scratch_dir()
+    cwd = os.getcwd()
+    # the pipeline specs name the scratch files relative to the working directory: generated item
+    # identifiers are derived from the transformation parameters, and an absolute scratch path would
+    # make them differ from one execution of the same seed to the next
+    os.chdir(_SCRATCH)
     try:
         return _execute(scenario)
     finally:
+        os.chdir(cwd)
         shutil.rmtree(_SCRATCH, ignore_errors=True)
         _SCRATCH = None
 
